@@ -241,7 +241,31 @@ def parse_mpi(path):
             if re.search(r"\b(mutable|static|thread_local)\b", mm.group(1)):
                 mutables += 1
     # statements of project()
-    stmts = [x.strip() for x in re.split(r"[;{}]", fbody) if x.strip()]
+    stmts = []
+    for raw in re.split(r"[;{}]", fbody):
+        st = raw.strip()
+        # control-flow headers: `for (T i = 0`, `i < n`, `++i) body`, `if (c) body`, `else body`
+        while True:
+            m2 = re.match(r"(?:else\b\s*)?(?:for|while|if|switch)\s*\(", st)
+            if m2:
+                st = st[m2.end():].strip()
+                continue
+            if st.startswith("else"):
+                st = st[4:].strip()
+                continue
+            break
+        # split at a closing parenthesis that closes a header opened in an earlier piece
+        depth, cut = 0, None
+        for pos, ch in enumerate(st):
+            if ch == "(":
+                depth += 1
+            elif ch == ")":
+                depth -= 1
+                if depth < 0:
+                    cut = pos
+                    break
+        pieces = [st] if cut is None else [st[:cut].strip(), st[cut + 1:].strip()]
+        stmts += [x for x in pieces if x]
     locals_, writes, statics = list(pnames), [], 0
     nreturns = len(re.findall(r"\breturn\b", fbody))
     statics += len(re.findall(r"\b(?:static|thread_local)\b", fbody))
